@@ -252,8 +252,11 @@ Next ==
   \/ Flatten
   \/ \E i \in 0..(MaxSize - 1) : Index(i)
   \/ \E a \in 0..1 : \E b \in 1..MaxSize : Slice(a, b)
-  \/ \E i \in 0..(MaxSize - 1) : \E src \in {"unit", "item", "row"} : \E as \in {"object", "array"} :
-        /\ Lean => (as = "array") = ((i + (IF src = "unit" THEN 0 ELSE 1)) % 2 = 1)
+  \/ \E i \in 0..(MaxSize - 1) : \E src \in {"unit", "item", "row"} : \E as \in {"object", "array", "points"} :
+        \* "points": the value is handed over as a composite Point holding the unit's primary data (an accepted object of
+        \* ANOTHER class, carrying no derived data of its own): the derived data of the target must still follow
+        /\ Lean => as = (IF (i + (IF src = "unit" THEN 0 ELSE 1)) % 2 = 1 THEN "array" ELSE IF src = "row" THEN "points" ELSE "object")
+        /\ ~Lean => (as = "points" => src # "item")
         /\ SetItem(i, src, as)
   \/ \E kind \in KeyKinds : \E src \in {"unit", "cells"} :
         /\ Lean => (src = "cells") = (kind \in {"list", "mask", "reversed"})
